@@ -170,7 +170,7 @@ def h_edit(params, pkg: str, ver: str, dist: str, urg: str, change: str, op: int
     if "change" in sym:
         assume(len(change) == lens[4])
         assume(no_boundary(change))
-    assume(0 <= op < 4)
+    assume(0 <= op < 6)
     if "op" in params:
         assume(op == params["op"])
     parsed = params["start"] in ("parsed", "truncated")
@@ -198,6 +198,14 @@ def h_edit(params, pkg: str, ver: str, dist: str, urg: str, change: str, op: int
         c.author = author
         c.date = date
         c.add_change("  * " + change)
+    elif op == 4:
+        assume(parsed)
+        c.date = date
+        c.add_change("  * " + change)
+    elif op == 5:
+        assume(parsed)
+        c.author = author
+        c.package = pkg
     else:
         c.new_block()
         c.package = pkg
@@ -218,8 +226,9 @@ def h_edit(params, pkg: str, ver: str, dist: str, urg: str, change: str, op: int
     require(block_summary(again) == block_summary(c), "built changelog re-parses to different blocks", out=out,
             before=block_summary(c), after=block_summary(again))
     require(str(again) == out, "formatting is not a fixpoint", out=out, out2=str(again))
-    require(again[0].package == pkg and str(again[0].version) == ver and again[0].distributions == dist and again[0].urgency == urg,
-            "edited fields not read back", out=out)
+    if op not in (4, 5):
+        require(again[0].package == pkg and str(again[0].version) == ver and again[0].distributions == dist and again[0].urgency == urg,
+                "edited fields not read back", out=out)
 
 
 def partitions(tier, seed):
@@ -249,8 +258,10 @@ def partitions(tier, seed):
             P.append(dict(name="free/len%d/pos%d" % (ln, pos), harness="h_freeline", params=dict(len=ln, pos=pos), budget=80 if q else 1500, reach=[],
                           bounds="one arbitrary line of %d characters inserted at position %d of a well-formed changelog" % (ln, pos)))
     for start in ("empty", "parsed", "truncated"):
-        for op in range(4):
-            if op == 2 and start == "empty":
+        for op in range(6):
+            if op in (2, 4, 5) and start == "empty":
+                continue
+            if op in (4, 5) and q and start != "truncated":
                 continue
             for sym in ((["change"], ["pkg"]) if q else (["change"], ["pkg"], ["ver"], ["dist", "urg"], ["pkg", "change"])):
                 for ln in ((1,) if q else (1, 2)):
